@@ -143,7 +143,7 @@ func (w *World) opCreateApp() {
 	if a.Kind == "dp" && w.prof.Pools && c.Prob(1, 3) {
 		a.Pool = pick(c, []string{"blue", "green"})
 	}
-	if w.prof.Ranges && c.Prob(1, 3) && !(a.Kind == "dp" && a.effPolicy() != "") {
+	if w.prof.Ranges && (c.Prob(1, 3) || w.prop == "C08" && c.Prob(3, 4)) && !(a.Kind == "dp" && a.effPolicy() != "") {
 		a.Ranges = w.genRanges()
 	}
 	w.apps = append(w.apps, a)
@@ -320,6 +320,8 @@ func (w *World) opSchedule() {
 	t.Data = &taskMeta{start: w.S.Steps, confRead: -1, podUID: p.UID}
 	w.schedBusy[p.UID] = t
 	w.openFilterWindow(p)
+	w.schedBefore[p.UID] = w.storeIPsOfKey(p.Key)
+	w.schedTouched[p.UID] = false
 }
 
 // ---- kubelet -------------------------------------------------------------------------------------------
